@@ -1766,8 +1766,8 @@ func runWitness(c *mon.Case) {
 }
 
 func main() {
-	mon.SetNote("rule", "case = random nucleotide alignment or unaligned sequence set (0..8 rows, lengths 0..70 on odd/even/power-of-two boundaries, rows of different lengths incl. 0 and 1 for sequence sets; residue mixes over the 33 symbol DNA alphabet of the property: 15 IUPAC codes in both cases + '-' '.' '*', mixes focused on K/M B/V D/H R/Y pairs, self-complementary codes, palindromic rows, all-gap rows, gap runs at the ends; hostile names, comments; built by AddSequence / AddSequenceChar / AutoAlphabet / Clone / the FASTA parser) x one transform or a history of 2..9 transforms (ReverseComplement, ReverseComplementSequences with 14 argument shapes, ToUpper, ToLower, Unalign, Clone, Sequence.Reverse/Complement through by-index and by-name handles), the container being read back after every step through IterateAll, Iterate, IterateChar, Sequences, by-index and by-name getters, Alphabet, Length and align.VerifInvariants and compared with the list model; case/un-align also on protein and printable-ASCII sets. Non-trivial = a row with an ambiguity code or mixed case (rc, rcsub, seqfn, history, exhaust), a mixed-case row (case), at least one gap (unalign); distinct = (rows, operation arguments / history).")
-	mon.SetNote("assumptions", "complement oracle = code whose base set is the Watson-Crick image of the base set of the input code (IUPAC/NC-IUB table typed in ref.go), case preserved, '-' '.' '*' fixed;; case oracle = ASCII letters only (bytes >= 0x80 are outside every sequence alphabet: only 'no crash, same length' is checked);; un-align removes '-' only ('.' and '*' stay);; U/u are outside the DNA alphabet of the quantifier: only 'no crash, same length' (35-symbol enumeration keeps them for that);; a name given several times to ReverseComplementSequences designates one row of the subset: the row is reverse-complemented once;; unknown names are ignored without error (docs/commands/revcomp.md: 'if they exist');; a container whose alphabet is not NUCLEOTIDS must return an error and stay unchanged; what AutoAlphabet answers is not judged (the oracle follows Alphabet());; the alphabet tag of Unalign's result is not judged except that the un-aligned copy of a nucleotide alignment can be reverse-complemented;; symbols outside the alphabet inside a NUCLEOTIDS container ('?', 'X', 'O') are outside the quantifier and not generated")
+	mon.SetNote("rule", "case = random nucleotide alignment or unaligned sequence set (0..8 rows, lengths 0..70 on odd/even/power-of-two boundaries, rows of different lengths incl. 0 and 1 for sequence sets; residue mixes over the 33 symbol DNA alphabet of the property: 15 IUPAC codes in both cases + '-' '.' '*', mixes focused on K/M B/V D/H R/Y pairs, self-complementary codes, palindromic rows, all-gap rows, gap runs at the ends; hostile names, comments; built by AddSequence / AddSequenceChar / AutoAlphabet / Clone / the FASTA parser) x one transform or a history of 2..9 transforms (ReverseComplement, ReverseComplementSequences with 14 argument shapes, ToUpper, ToLower, Unalign, Clone, Sequence.Reverse/Complement through by-index and by-name handles), the container being read back after every step through IterateAll, Iterate, IterateChar, Sequences, by-index and by-name getters, Alphabet, Length and align.VerifInvariants and compared with the list model; case/un-align also on protein and printable-ASCII sets. Non-trivial = a row with an ambiguity code or mixed case (rc, rcsub, seqfn, history, exhaust), a mixed-case row (case), at least one gap (unalign); distinct = (rows, operation arguments / history). names: histories of 3..10 steps in which Rename (a map that swaps two names, rotates 2..n names, or introduces a fresh name), RenameRegexp (prefix, suffix, first character to the end, digit replacement when injective), Sort and ShuffleSequences alternate with ReverseComplementSequences (current names, names that moved to another row, names no row carries any more, repeated and unknown names), by-name Sequence handles, ReverseComplement and case folding; rows are made pairwise different and not self reverse-complementary so that hitting the wrong row shows; non-trivial = a by-name reverse complement of a proper subset issued after a renaming / re-ordering. cli: the goalign binary built from the tree: `revcomp` (no name / known / unknown / mixed / repeated / all names as positional arguments, before or after the flags), `tolower`, `toupper` (nucleotide, protein, any-letter content) and `unalign` (-o prefix, default stdout, -o -, -o stdout) on a FASTA alignment, FASTA sequences of unequal length (--unaligned, also with -p/-x/-u which are documented as ignored), 1..3 Phylip alignments (-p, --one-line/--no-block) or --auto-detect; names that exist in some alignments of the file only; output read back from the -o file / stdout / the per-alignment files and compared with the oracle of ref.go.")
+	mon.SetNote("assumptions", "complement oracle = code whose base set is the Watson-Crick image of the base set of the input code (IUPAC/NC-IUB table typed in ref.go), case preserved, '-' '.' '*' fixed;; case oracle = ASCII letters only (bytes >= 0x80 are outside every sequence alphabet: only 'no crash, same length' is checked);; un-align removes '-' only ('.' and '*' stay);; U/u are outside the DNA alphabet of the quantifier: only 'no crash, same length' (35-symbol enumeration keeps them for that);; a name given several times to ReverseComplementSequences designates one row of the subset: the row is reverse-complemented once;; unknown names are ignored without error (docs/commands/revcomp.md: 'if they exist');; a container whose alphabet is not NUCLEOTIDS must return an error and stay unchanged; what AutoAlphabet answers is not judged (the oracle follows Alphabet());; the alphabet tag of Unalign's result is not judged except that the un-aligned copy of a nucleotide alignment can be reverse-complemented;; names: RenameRegexp replaces like regexp.ReplaceAllString of the standard library and fills the map old name -> new name; Sort orders by byte-wise comparison of the names; the order ShuffleSequences produces is not judged (any permutation keeping every row intact);; command line: the output format follows the input format (Phylip in, Phylip out) except for unalign / --unaligned (FASTA); the per-alignment files of unalign are <prefix>_NNNNNN.fa (cmd/unalign.go) or <prefix>NNNNNN.fa (the example of docs/commands/unalign.md uses a prefix ending with _): both accepted; a file with a letter that is no nucleotide code must be refused by revcomp (docs), what is written before a refusal is not examined; global reading options (--input-strict, --ignore-identical, --alphabet, -x/-u/-k input) belong to C02/C03;; symbols outside the alphabet inside a NUCLEOTIDS container ('?', 'X', 'O') are outside the quantifier and not generated")
 	mon.SetNote("exhaustive_subspaces", "all 35 single symbols, all 1225 ordered pairs and all 42875 ordered triples over the 35-symbol alphabet (33 DNA symbols + U/u) through align.Reverse, align.Complement, Sequence.Reverse, Sequence.Complement (both orders, twice = identity); the 33 + 1089 + 35937 sequences over the DNA alphabet additionally as rows of sequence sets (mixed lengths) and of alignments through ReverseComplement and ReverseComplementSequences (none / every second row / all names) with the involution; enumerated completely at both tiers (sub-check exhaust, 1225 cases = one per ordered pair prefix)")
 	for _, k := range []string{"op:ReverseComplement", "op:ReverseComplement-twice", "op:ReverseComplementSequences", "op:ToUpper", "op:ToLower", "op:Unalign", "op:align.Reverse", "op:align.Complement", "op:Sequence.Reverse", "op:Sequence.Complement", "op:fasta.WriteSequences"} {
 		mon.Floor(k, 1000)
@@ -1807,6 +1807,38 @@ func main() {
 	mon.Floor("rel:Unalign.RC-commute", 500)
 	mon.Floor("rel:Unalign.ToUpper-commute", 1000)
 	mon.Floor("case:mixed-case-input", 1000)
+	// sub names: renaming / re-ordering between the transforms
+	for _, k := range []string{"rename-swap", "rename-rotate", "rename-fresh", "rename-regexp", "sort", "shuffle", "ReverseComplementSequences", "seq.rc-byname", "rc"} {
+		mon.Floor("names-op:"+k, 5000)
+	}
+	mon.Floor("names:by-name-after-renaming", 10000)
+	mon.Floor("names:moved-name-hit", 3000)
+	// sub cli: the four commands
+	mon.Floor("cli:runs", 300)
+	mon.Floor("cli:outcome:ok", 250)
+	mon.Floor("cli:refusal-expected", 3)
+	mon.Floor("cli:revcomp", 120)
+	mon.Floor("cli:tolower", 30)
+	mon.Floor("cli:toupper", 30)
+	mon.Floor("cli:unalign", 60)
+	for _, cmd := range []string{"revcomp", "tolower", "toupper"} {
+		for _, md := range []string{"fasta", "phylip", "unaligned", "auto-fasta", "auto-phylip"} {
+			mon.Floor("cli:"+cmd+":mode:"+md, 4)
+		}
+		mon.Floor("cli:"+cmd+":output:file", 10)
+		mon.Floor("cli:"+cmd+":output:stdout", 4)
+		mon.Floor("cli:"+cmd+":several-alignments", 5)
+	}
+	for _, md := range []string{"fasta", "phylip", "auto-fasta", "auto-phylip"} {
+		mon.Floor("cli:unalign:mode:"+md, 8)
+	}
+	for _, o := range []string{"file", "stdout", "dash", "stdout-word"} {
+		mon.Floor("cli:unalign:output:"+o, 4)
+	}
+	mon.Floor("cli:unalign:several-alignments", 20)
+	for _, sh := range []string{"none", "known", "unknown", "mixed", "repeated", "all"} {
+		mon.Floor("cli:revcomp:names:"+sh, 12)
+	}
 	mon.Main("C06", []mon.Sub{
 		{Name: "witness", Quick: len(witnesses), Thorough: len(witnesses), Run: runWitness},
 		{Name: "exhaust", Quick: 1225, Thorough: 1225, Run: runExhaust},
@@ -1817,5 +1849,7 @@ func main() {
 		{Name: "case", Quick: 80000, Thorough: 1200000, Run: runCase},
 		{Name: "unalign", Quick: 80000, Thorough: 1200000, Run: runUnalign},
 		{Name: "history", Quick: 100000, Thorough: 1500000, Run: runHistory},
+		{Name: "names", Quick: 60000, Thorough: 900000, Run: runNames},
+		{Name: "cli", Quick: 376, Thorough: 3200, Serial: true, Run: runCli},
 	})
 }
